@@ -1338,6 +1338,19 @@ class Executor:
     _intconst_re = re.compile(r'^(?:core::|std::)?([iu](?:8|16|32|64|128|size))::(MAX|MIN|BITS)$')
 
     def _eval_const(self, st, text, fr):
+        mi = re.search(r'<impl ([A-Za-z0-9_]+)>::([A-Za-z0-9_]+)$', text)
+        if mi:
+            # associated constant of a primitive: core::f64::<impl f64>::INFINITY -> f64::INFINITY
+            text = '%s::%s' % (mi.group(1), mi.group(2))
+        mr = re.match(r'^(?:[a-z_]+::)*(Option|Result)::<.*>::(Some|None|Ok|Err)(?:\((.*)\))?$', text, re.S)
+        if mr:
+            # enum constant with payload, e.g. the residual `Result::<Infallible, fmt::Error>::Err(fmt::Error)` of `?`
+            if mr.group(3) is None:
+                return Enum(mr.group(1), mr.group(2), ()), True
+            inner, _ = self._eval_const(st, mr.group(3).strip(), fr)
+            return Enum(mr.group(1), mr.group(2), (inner,)), True
+        if text in ('std::fmt::Error', 'core::fmt::Error', 'fmt::Error'):
+            return Opaque('zst', 'fmt::Error'), True
         m = self._int_re.match(text)
         if m:
             return Int(m.group(2), int(m.group(1))), True
@@ -1605,6 +1618,12 @@ for _t in ('f64', 'f32'):
                    ('FRAC_PI_4', _math.pi / 4), ('LN_2', _math.log(2)), ('SQRT_2', _math.sqrt(2))):
         STD_CONSTS['std::%s::consts::%s' % (_t, _n)] = (_t, _v)
         STD_CONSTS['%s::consts::%s' % (_t, _n)] = (_t, _v)
+for _t, _mx, _mp, _eps in (('f64', 1.7976931348623157e308, 2.2250738585072014e-308, 2.220446049250313e-16),
+                           ('f32', 3.4028234663852886e38, 1.1754943508222875e-38, 1.1920928955078125e-07)):
+    for _n, _v in (('INFINITY', float('inf')), ('NEG_INFINITY', float('-inf')), ('NAN', float('nan')), ('MAX', _mx),
+                   ('MIN', -_mx), ('MIN_POSITIVE', _mp), ('EPSILON', _eps)):
+        STD_CONSTS['%s::%s' % (_t, _n)] = (_t, _v)
+        STD_CONSTS['std::%s::%s' % (_t, _n)] = (_t, _v)
 STD_CONSTS['f64::EPSILON'] = ('f64', 2.220446049250313e-16)
 STD_CONSTS['f64::MAX'] = ('f64', 1.7976931348623157e308)
 STD_CONSTS['f64::INFINITY'] = ('f64', float('inf'))
